@@ -27,15 +27,27 @@ func TestIndexedStorage(t *testing.T) {
 	stats.Rule(check, "rapid state machine over memstorage.IndexedStorage[uint32-index,int,int], indexes 0..4; Get (no flag / false / true), writes into the returned storage, Evict, ForEach, Clear vs map index->(storage pointer, content); ForEach/Clear compared as multisets of (index, pointer) pairs; evicted storages keep their content; non-trivial = an index was evicted (or cleared) while holding data and later re-created (must be a fresh empty storage); distinct by operation list")
 	rapid.Check(t, func(rt *rapid.T) {
 		h := newHist(check, "")
+		defer h.guard(rt)
 		s := memstorage.NewIndexedStorage[isIndex, int, int]()
 		model := map[isIndex]*isSlot{}
 		removedWithData := map[isIndex]struct{}{}
 		idx := rapid.Custom(func(t *rapid.T) isIndex { return isIndex(rapid.IntRange(0, isUniverse-1).Draw(t, "index")) })
 
+		// storages are named by creation order so that messages do not contain addresses
+		names := map[*shrinkingmap.ShrinkingMap[int, int]]string{}
+		name := func(p *shrinkingmap.ShrinkingMap[int, int]) string {
+			if n, ok := names[p]; ok {
+				return n
+			}
+			if p == nil {
+				return "nil"
+			}
+			return "unknown"
+		}
 		pairs := func() []string {
 			out := make([]string, 0, len(model))
 			for i, sl := range model {
-				out = append(out, fmt.Sprintf("%d:%p", i, sl.ptr))
+				out = append(out, fmt.Sprintf("%d:%s", i, name(sl.ptr)))
 			}
 			sort.Strings(out)
 			return out
@@ -91,6 +103,7 @@ func TestIndexedStorage(t *testing.T) {
 			if _, was := removedWithData[i]; was {
 				h.label("recreated_after_removal")
 			}
+			names[got] = fmt.Sprintf("s%d", len(names)+1)
 			model[i] = &isSlot{ptr: got, content: map[int]int{}}
 			checkContent(rt, fmt.Sprintf("fresh Get(%d,true)", i), got, map[int]int{})
 		})
@@ -132,7 +145,7 @@ func TestIndexedStorage(t *testing.T) {
 		acts.add("ForEach", 1, func(rt *rapid.T) {
 			var got []string
 			s.ForEach(func(i isIndex, st *shrinkingmap.ShrinkingMap[int, int]) {
-				got = append(got, fmt.Sprintf("%d:%p", i, st))
+				got = append(got, fmt.Sprintf("%d:%s", i, name(st)))
 			})
 			sort.Strings(got)
 			h.op("ForEach() saw %d", len(got))
@@ -151,7 +164,7 @@ func TestIndexedStorage(t *testing.T) {
 			}
 			got := make([]string, 0, len(keys))
 			for n := range keys {
-				got = append(got, fmt.Sprintf("%d:%p", keys[n], storages[n]))
+				got = append(got, fmt.Sprintf("%d:%s", keys[n], name(storages[n])))
 			}
 			sort.Strings(got)
 			if want := pairs(); !equalStrings(got, want) {
